@@ -72,6 +72,7 @@ func canonRealStr(s string) string {
 
 // realOutcome compiles and runs a program. cerr is the compile error text.
 func realOutcome(src string) (o outcome, cerr string, rterr any) {
+	currentProgram("C29", src)
 	c := compileConst(src)
 	if c.failed() {
 		if c.rterr {
@@ -110,6 +111,7 @@ func blockModes(src string) (funcs, closures int) {
 }
 
 func TestC29(t *testing.T) {
+	curProp = "C29"
 	rec := ev.New("C29", "rapid-generated programs in a block mini-language (<= 25 statements, <= 4 nested blocks: parameters with shadowing, assignments, += ++, if, for, while, stored / passed / returned / recursive blocks, nested function literals called several times, early return from blocks, break/continue in blocks, throw, try/catch with patterns) rendered to Suneido source, compiled with compile.Constant and run with core.Thread; result (value / object of the root's variables / exception class) compared with an own reference interpreter of the documented scoping model; each program is run again with (a) an unreachable `if false { return 0 }` in a random block and (b) a fresh variable shared between a random scope and a new nested block (both force closure compilation). Non-trivial: the reference run saw two closures created by one call write the same shared variable, or a block entered while an activation of the same block was live; distinct = by source text.")
 	rec.Assumptions = []string{
 		"model of C29 as in DESIGN.md §4: a variable used by >= 2 nested scopes has one cell per call of the outermost function (also when the owner is a block or a block parameter), all others are per call of their scope",
